@@ -1911,12 +1911,32 @@ class Compiler:
 
         # The names of the compiler are protected here as they are in
         # ``tal:define`` and ``tal:repeat``.
-        for name in itertools.chain(*map(ast.walk, stmts)):
-            if isinstance(name, ast.Name) and \
-               not isinstance(name.ctx, ast.Load) and (
-                   name.id.startswith('__') or
-                   name.id in COMPILER_INTERNALS_OR_DISALLOWED or
-                   name.id in self.defaults):
+        def bound(nodes):
+            # Names bound in the block other than by assignment: import,
+            # def, class, ``except ... as`` and ``match`` captures (the
+            # body of a function or class is a scope of its own).
+            for n in nodes:
+                if isinstance(n, ast.alias):
+                    yield n.asname or n.name.partition('.')[0]
+                else:
+                    yield getattr(n, 'name', None) or getattr(n, 'rest', None)
+                if not isinstance(n, (ast.FunctionDef, ast.AsyncFunctionDef,
+                                      ast.ClassDef, ast.Lambda)):
+                    yield from bound(ast.iter_child_nodes(n))
+
+        names = [
+            name.id for name in itertools.chain(*map(ast.walk, stmts))
+            if isinstance(name, ast.Name) and
+            not isinstance(name.ctx, ast.Load)
+        ] + [
+            # (``__main__`` and the like are no names of the compiler)
+            name for name in bound(stmts)
+            if isinstance(name, str) and not name.endswith('__')
+        ]
+        for name in names:
+            if (name.startswith('__') or
+                    name in COMPILER_INTERNALS_OR_DISALLOWED or
+                    name in self.defaults):
                 raise TranslationError(
                     "Name disallowed by compiler.", node.source
                 )
